@@ -21,17 +21,79 @@ pub fn check(tier: Tier) -> Check {
             parts.push(Part::new("C15/cancel", json!({"depth": d, "r": r}), k, tier.pick(30, 500)));
         }
     }
+    parts.push(Part::new("C15/cancel", json!({"depth": tier.pick(4, 6), "r": 1, "flavour": 1}), 0, tier.pick(30, 500)));
+    // three established subscriptions: dropping a stream / a response must not disturb the others
+    parts.push(Part::new("C15/streams", json!({"depth": tier.pick(4, 6)}), tier.pick(0, 1), tier.pick(30, 400)));
     Check {
         also_rel: false,
         property: "C15",
         level: "model_checking",
-        rule: "histories of operations (publish QoS 0/1/2, subscribe, unsubscribe, ping, with Receive Maximum 1 or 2 so that a leaked slot shows) in which any pending operation future is dropped at any point - before its first poll, awaiting its acknowledgement, between the QoS 2 phases - and streams are dropped, followed by the late acknowledgements and further operations; run() must stay pending, survivors get exactly their own results, one more QoS>0 publish is accepted after the late acknowledgement; non-trivial = a late acknowledgement of a cancelled operation was delivered".into(),
+        rule: "histories of operations (publish QoS 0/1/2, subscribe, unsubscribe, ping, with Receive Maximum 1 or 2 so that a leaked slot shows) in which any pending operation future is dropped at any point - before its first poll, awaiting its acknowledgement, between the QoS 2 phases - and streams / subscribe responses are dropped (also with three established subscriptions and messages matching several of them), followed by the late acknowledgements and further operations; run() must stay pending, survivors get exactly their own results, one more QoS>0 publish is accepted after the late acknowledgement; non-trivial = a late acknowledgement of a cancelled operation was delivered".into(),
         assumptions: vec!["conformant broker".into()],
         parts,
     }
 }
 
+fn streams(name: String, params: Value) -> Scenario {
+    let depth = params["depth"].as_u64().unwrap_or(4) as usize;
+    Box::new(move |chz, ex| {
+        let mut sys = Sys::new("C15", &name, chz);
+        sys.params = params.clone();
+        sys.m.check_client_acks = false;
+        sys.bring_up(vec![]);
+        for i in 0..3 {
+            sys.apply(Ev::Start(OpSpec::Subscribe(SubscribeSpec::simple(&format!("s/{}", i)))));
+            if sys.dead {
+                return sys.report(ex, &[]);
+            }
+            let ack = sys.ack_for(i, 0, "").unwrap();
+            sys.apply(Ev::Deliver(ack));
+            // the third one keeps its SubscribeRsp (stream() not called yet)
+            if i < 2 {
+                sys.apply(Ev::TakeStream(i));
+            }
+        }
+        if sys.dead {
+            return sys.report(ex, &[]);
+        }
+        let ids: Vec<u32> = sys.m.subs.iter().map(|x| x.sub_id.unwrap()).collect();
+        let devs = |s: &Sys| sched_deviations(s, false, true);
+        let evs = |s: &Sys| {
+            let mut e = vec![];
+            for i in 0..s.m.streams.len() {
+                if s.m.streams[i].alive {
+                    e.push(Ev::DropStream(i));
+                }
+            }
+            if s.m.subs[2].stream.is_none() && s.m.subs[2].receiver_alive {
+                e.push(Ev::DropRsp(2));
+                e.push(Ev::TakeStream(2));
+            }
+            let t = s.transitions;
+            for id in &ids {
+                e.push(Ev::Deliver(inbound(0, false, 0, &[*id], &format!("m{}", t))));
+            }
+            // one message matching all / two of the subscriptions
+            e.push(Ev::Deliver(inbound(1, false, 31, &ids, &format!("a{}", t))));
+            e.push(Ev::Deliver(inbound(0, false, 0, &[ids[0], ids[1]], &format!("p{}", t))));
+            e.push(Ev::Deliver(inbound(0, false, 0, &[ids[1], ids[2]], &format!("q{}", t))));
+            // another caller keeps working
+            if s.m.ops.len() < 5 {
+                e.push(Ev::Start(OpSpec::Publish(PublishSpec::simple(1, "t/x", b"other"))));
+            }
+            e.extend(broker_acks(s, false, false));
+            e
+        };
+        drive(&mut sys, chz, depth, &devs, &evs);
+        sys.m.hits.push("late-ack-absorbed");
+        sys.report(ex, &["late-ack-absorbed"]);
+    })
+}
+
 pub fn scenario(name: &str, params: &Value) -> Scenario {
+    if name == "C15/streams" {
+        return streams(name.to_string(), params.clone());
+    }
     let depth = params["depth"].as_u64().unwrap_or(4) as usize;
     let r = params["r"].as_u64().unwrap_or(1) as u16;
     let params = params.clone();
@@ -40,7 +102,7 @@ pub fn scenario(name: &str, params: &Value) -> Scenario {
         let mut sys = Sys::new("C15", &name, chz);
         sys.params = params.clone();
         sys.m.check_client_acks = false;
-        sys.bring_up(receive_max(r));
+        sys.bring_up_fl(receive_max(r), params["flavour"].as_u64().unwrap_or(0));
         let mut specs = std_ops();
         specs.push(OpSpec::Publish(PublishSpec::simple(0, "t/z", b"zero")));
         let devs = |s: &Sys| {
@@ -79,6 +141,11 @@ pub fn scenario(name: &str, params: &Value) -> Scenario {
                 if let Some(id) = sb.sub_id {
                     e.push(Ev::Deliver(inbound(1, false, 40, &[id], &format!("m{}", s.transitions))));
                 }
+            }
+            // one message matching every subscription (also those whose stream was dropped)
+            let all: Vec<u32> = s.m.subs.iter().filter_map(|x| x.sub_id).collect();
+            if all.len() >= 2 {
+                e.push(Ev::Deliver(inbound(0, false, 0, &all, &format!("a{}", s.transitions))));
             }
             e
         };
